@@ -95,7 +95,7 @@ class ProjectSettings:
 
         """
 
-        return np.linspace(self.sim_start, self.sim_end, int((self.sim_end - self.sim_start) / self.sim_dt) + 1)
+        return np.linspace(self.sim_start, self.sim_end, int(np.round((self.sim_end - self.sim_start) / self.sim_dt)) + 1)
 
     def update_time_vector(self, start: float = None, end: float = None, dt: float = None) -> None:
         """
